@@ -139,7 +139,7 @@ type anchorErr struct{ msg string }
 func anchorFail(format string, a ...any) { panic(anchorErr{fmt.Sprintf(format, a...)}) }
 
 func (p *Prog) Pkg(path string) *packages.Package {
-	if !strings.Contains(path, ".") {
+	if _, ok := p.ByPath[path]; !ok && !strings.Contains(path, ".") {
 		path = istioMod + "/" + path
 	}
 	pk := p.ByPath[path]
